@@ -1,6 +1,100 @@
 package props
 
-import "verif/internal/check"
+import (
+	"fmt"
+	"sync"
+	"time"
 
-func partConcurrent(c *check.Ctx, a *acc, prop string) {}
-func partStoreStress(c *check.Ctx, a *acc)             {}
+	"verif/internal/check"
+	"verif/internal/e1"
+	"verif/internal/e2"
+	"verif/internal/sut"
+)
+
+var blockClasses = []string{"mutation-x-mutation", "same-key-writers(action)", "join-x-mutation", "leave-x-mutation", "join-and-leave-x-mutation"}
+
+// partConcurrent: E2 concurrent blocks (free-running and jittered) with the
+// order-free oracles of C01 / C02.
+func partConcurrent(c *check.Ctx, a *acc, prop string) {
+	bin, err := c.WS.Build("lab", "plain")
+	if err != nil {
+		c.Inconc("build failed: " + err.Error())
+		return
+	}
+	n := c.Pick(200, 2000)
+	var mu sync.Mutex
+	done, nontrivial, relays, views := 0, 0, 0, 0
+	sigs := map[string]map[string]int{}
+	var samples []any
+	workers := 16
+	parallel(workers, workers, func(w int) {
+		var p *sut.Proc
+		defer func() {
+			if p != nil {
+				p.Kill()
+			}
+		}()
+		for i := w; i < n; i += workers {
+			jitter := i%2 == 1
+			if p == nil || !p.Alive() {
+				var err error
+				p, err = c.WS.StartLab(bin, sut.LabOpts{Frame: 2 * time.Millisecond, Name: "block"})
+				if err != nil {
+					c.Inconc(err.Error())
+					return
+				}
+			}
+			if jitter {
+				p.RT(fmt.Sprintf("op=mode&v=1&rate=%d&seed=%d", 8000+1000*(i%9), c.Seed*77+int64(i)))
+			} else {
+				p.RT("op=mode&v=0")
+			}
+			class := blockClasses[i%len(blockClasses)]
+			cfg := e1.Config{Seed: c.Seed*4_000_037 + int64(i)*6151 + 9, Steps: 25 + (i*7)%40, MaxConns: 5, MaxSess: 1, Mods: modSubsets[(i/len(blockClasses))%len(modSubsets)],
+				Profile: "view", Avoid: avoidList()}
+			res := e2.Block(c.WS, p, cfg, class)
+			mu.Lock()
+			done++
+			relays += res.Relays
+			views += res.ViewsCompared
+			if res.Inconclusive != "" {
+				// a prefix that leaves fewer than two members is not a block: counted, not judged
+				if res.Inconclusive != "prefix left no session with two members" {
+					c.Inconc(res.Inconclusive)
+				}
+			} else if len(res.Findings) == 0 && res.Senders >= 2 && res.Relays > 0 {
+				nontrivial++
+				if sigs[class] == nil {
+					sigs[class] = map[string]int{}
+				}
+				if res.OrderSig != "" {
+					sigs[class][res.OrderSig]++
+				}
+				if len(samples) < 3 {
+					samples = append(samples, map[string]any{"engine": "E2 concurrent block", "class": class, "jitter": jitter, "prefix_steps": cfg.Steps, "block": res.Desc, "relay_order_at_witness": res.OrderSig})
+				}
+			}
+			for _, f := range res.Findings {
+				c.Report(f)
+			}
+			bad := len(res.Findings) > 0
+			mu.Unlock()
+			if bad {
+				p.Kill()
+				p = nil
+			}
+		}
+	})
+	distinct := 0
+	for _, m := range sigs {
+		distinct += len(m)
+	}
+	c.Coverage["concurrent_blocks"] = done
+	c.Coverage["concurrent_block_relays_attributed"] = relays
+	c.Coverage["concurrent_block_views_compared"] = views
+	c.Coverage["concurrent_block_interleaving_signatures_by_class"] = sigs
+	c.Coverage["concurrent_block_distinct_signatures"] = distinct
+	a.add(done, nontrivial, "E2 concurrent blocks: after a sequential prefix judged by the model, 2-3 members of one session fire 1-4 requests each at once (classes: mutations on different keys, same-key writers, with a newcomer joining, with a member leaving, both), free-running or under jitter at injected scheduling points; after a frame barrier and a barrier on every connection: exactly-once / never-echoed / per-sender order by origin tag, and every member's folded view (and the newcomer's) against the state handed to a probe; non-trivial when at least 2 senders' relays were attributed", samples...)
+}
+
+func partStoreStress(c *check.Ctx, a *acc) {}
